@@ -122,6 +122,8 @@ def walk(connection, sthr=None, jthr=None):
     if sthr is not None and (thr[0][0] != sthr or thr[0][1] != jthr):
         findings.append(('C03', 'thresholds-differ-from-request', {'stored': thr[0], 'requested': [sthr, jthr]}))
     sthr, jthr = thr[0]
+    if sthr == 0 or jthr == 0:
+        hit('datasets-with-a-zero-threshold')
     step_s, strs = stretches(connection)
     step_h = step_s / 3600.0
     T = jthr * step_h
